@@ -399,8 +399,8 @@ func plans() map[string]*propertyPlan {
 			assumptions: []string{"'known in its context' means: the parent's Go type has a field tagged with that keyword - the table is goyang's own declaration, not the RFC's"},
 			minObserved: map[string]int64{"accepted": 2000, "rejected_as_required": 2000, "nodes_paired": 20000},
 			nontrivial:  "nontrivial", evaluations: "trees",
-			quick:    []spec{{family: "trees", cases: 300000, cpuS: 900, asKB: 8 << 20, wallS: 1200}},
-			thorough: []spec{{family: "trees", cases: 6000000, cpuS: 7200, asKB: 8 << 20, wallS: 9000}},
+			quick:    []spec{{family: "trees", cases: 300000, cpuS: 900, asKB: 8 << 20, wallS: 1200}, {family: "processed", cases: 6000, cpuS: 900, asKB: 8 << 20, wallS: 1200}},
+			thorough: []spec{{family: "trees", cases: 6000000, cpuS: 7200, asKB: 8 << 20, wallS: 9000}, {family: "processed", cases: 100000, cpuS: 7200, asKB: 8 << 20, wallS: 9000}},
 		},
 		"C10": {
 			level:       "exploration",
